@@ -75,6 +75,21 @@ BASIC = {
             P("x", "str", "sepx"),
             P("y", "str", "sepy"),
         ]),
+        # every representable property kind (C04)
+        dict(name="Rich", base="ASTNode", fields=[
+            P("s", "str", "r_s"),
+            P("i", "int", "r_i"),
+            P("fl", "float", "r_fl"),
+            P("bo", "bool", "r_bo"),
+            P("os", "str | None", "r_os", default="None"),
+            P("e", "Color", "r_e", default="Color.RED"),
+            P("pth", "Path", "r_pth", default="Path('a/b')"),
+            P("lit", "Literal['a', 'b']", "r_lit", default="'a'"),
+            P("tup", "tuple[int, ...]", "r_tup", default="()"),
+            P("ftup", "tuple[str, int]", "r_ftup", default="('', 0)"),
+            P("nc", "str", "r_s", default="''", compare=False),
+            C("kid", "opt", ["ASTNode"], "ASTNode | None", default="None"),
+        ]),
         # children that are falsy in a boolean context
         dict(name="FLeaf", base="Leaf", fields=[], body="def __len__(self):\n        return 0\n"),
         dict(name="FUnary", base="Unary", fields=[], body="def __bool__(self):\n        return False\n"),
@@ -174,7 +189,9 @@ def render_py(zoo: dict, legacy: bool = False, postponed: bool = True) -> str:
         lines.append("from __future__ import annotations")
     lines += [
         "from dataclasses import dataclass, field",
-        "from typing import Any",
+        "from typing import Any, Literal",
+        "from pathlib import Path",
+        "from harness.pools import Color, IColor",
     ]
     if legacy:
         lines.append("from pyoak.legacy.node import ASTNode")
